@@ -30,6 +30,10 @@ pub mod c03 {
 pub mod c06 {
     include!(concat!(env!("ETHERCRAB_VERIF_DIR"), "/c06.rs"));
 }
+#[cfg(kani)]
+pub mod c04 {
+    include!(concat!(env!("ETHERCRAB_VERIF_DIR"), "/c04.rs"));
+}
 #[cfg(all(kani, ethercrab_verif_h1))]
 pub mod c11 {
     include!(concat!(env!("ETHERCRAB_VERIF_DIR"), "/c11.rs"));
